@@ -178,4 +178,22 @@ theorem updateAll_pointwise (ms : List Mineral) (chi : ℝ) (raws : List (Option
         simp only [updateAll, updateWith, hl0, List.zipWith_cons_cons] at this ⊢
         rw [← this]
 
+/-- **reordering the minerals handed to the bulk update reorders the resulting minerals in the same
+way** (when every update succeeds): the multiset of (mineral, result) pairs does not depend on the
+order of the list. -/
+theorem updateAll_perm (ms ms' : List Mineral) (chi : ℝ) (raws raws' : List (Option (List (List ℝ))))
+    (hlen : ms.length = raws.length) (hlen' : ms'.length = raws'.length)
+    (hall : ∀ i (hi : i < raws.length), ∃ rs raw, raws[i] = some rs ∧ rs.getLast? = some raw)
+    (hall' : ∀ i (hi : i < raws'.length), ∃ rs raw, raws'[i] = some rs ∧ rs.getLast? = some raw)
+    (hperm : (List.zip ms raws).Perm (List.zip ms' raws')) :
+    (updateAll ms chi raws).1.Perm (updateAll ms' chi raws').1 := by
+  rw [updateAll_pointwise ms chi raws hlen hall, updateAll_pointwise ms' chi raws' hlen' hall']
+  have e : ∀ (a : List Mineral) (b : List (Option (List (List ℝ)))),
+      List.zipWith (fun m r => (updateWith m chi r).1) a b
+        = (List.zip a b).map (fun p => (updateWith p.1 chi p.2).1) := by
+    intro a b
+    rw [List.zip, List.map_zipWith]
+  rw [e, e]
+  exact hperm.map _
+
 end ModelR
